@@ -217,16 +217,26 @@ def runWOps (fx : Fixes) (T : TokenizerM) : WorkerM → List WOp → Nat → Lis
 def mkTokenizerH (histIgn : Bool) (D : DictM) (ign : Bool) (maxg : Nat) : Option TokenizerM :=
   if histIgn && (D.chars.cateId "SPACE").isNone then none else mkTokenizer D ign maxg
 
+/-- After a DOPS history that contains an id mapping the harness dumps the whole connection-cost table of the
+resulting dictionary (`K <numRight> <numLeft> <costs row-major r*numLeft+l>`, at most 1024 cells): C06's clause
+"connection cost between mapped ids equals the original cost between the original ids" (theorem `mapIds_cost`). -/
+def connPart (D : DictM) (dops : List DOp) : Option String :=
+  if dops.any (fun op => match op with | .map _ _ => true | _ => false) && D.numRight * D.numLeft ≤ 1024 then
+    some (s!"K {D.numRight} {D.numLeft}" ++ String.join ((List.range D.numRight).flatMap fun r =>
+      (List.range D.numLeft).map fun l => " " ++ toString (D.cost r l)))
+  else none
+
 /-- The model's observation for a `tok` case. -/
 def modelObs (fx : Fixes) (D : DictM) (dops : List DOp) (ign : Bool) (maxg : Nat) (wops : List WOp)
     (histIgn : Bool := false) : String :=
   match runDOps fx D dops 0 with
   | .error e => e
   | .ok D' =>
+    let k := (connPart D' dops).toList
     match mkTokenizerH histIgn D' ign maxg with
-    | none => "O err"
+    | none => " ; ".intercalate (k ++ ["O err"])
     | some T =>
-      let parts := runWOps fx T WorkerM.fresh wops 0 []
+      let parts := k ++ runWOps fx T WorkerM.fresh wops 0 []
       if parts.isEmpty then "-" else " ; ".intercalate parts
 
 structure Case where
@@ -570,6 +580,13 @@ def evalP2 (D0 : DictM) (c : Case) : String :=
     | _ => true)
   let (p3, p6, p8, p13, projs) := go c.wops 0 [] false ([], []) (true, true, true, true, [])
   let p8 := p8 && p8v
+  -- C06 (cost clause): the implementation's connection-cost table after the history is the original table
+  -- permuted by the applied mappings (the model's table, theorem `mapIds_cost` / `history_costs_refined`)
+  let p6k : Bool := match parts.find? (fun p => p.head? == some "K"),
+      (match runDOps Fixes.all D0 c.dops 0 with | .ok D => connPart D c.dops | _ => none) with
+    | some ik, some mk => " ".intercalate ik == mk
+    | _, _ => true
+  let p6 := p6 && p6k
   let p3a := projs.all fun p => !(p.contains "!astral")
   let projs := projs.map fun p => p.filter (· != "!astral")
   let p12 := match projs with
